@@ -159,6 +159,8 @@ def Cfg.interp (cfg : Cfg) (body : Bytes) : Req := (cfg.bodies.lookup body).getD
 /-- How a handler task ends (`cls` indexes an exception class chosen by the harness). -/
 inductive Outcome where
   | result
+  | bigResult                        -- a result whose encoding fills the transport buffer: the writer pauses
+  | cancelledInside                  -- the handler raises `CancelledError` although nobody cancelled its task
   | usage (cls : Nat)
   | internal (cls : Nat)
   | unpicklable                      -- `_encode_body` of the result raises
@@ -169,11 +171,14 @@ inductive Outcome where
 inductive RKind where
   | value
   | failure (usage : Bool) (cls : Option Nat)   -- `RemoteFailure`; `none`: the `RPCError` of a rejection
+  | cancelFailure                               -- the `RemoteFailure` of an `asyncio.CancelledError` (not usage)
   | sentinel                                    -- empty body: no reply is coming
   deriving DecidableEq, Repr
 
 def Outcome.kind : Outcome → RKind
   | .result => .value
+  | .bigResult => .value
+  | .cancelledInside => .cancelFailure
   | .usage c => .failure true (some c)
   | .internal c => .failure false (some c)
   | .unpicklable => .sentinel
@@ -250,7 +255,10 @@ def sendLoop : Nat → Conn → Conn
           | .unpicklable =>
             if c.paused then { c' with sendBlocked := true, failAfterDrain := true }
             else failConn c' .unpicklable
-          | _ => if c.paused then { c' with sendBlocked := true } else sendLoop n c'
+          | o =>
+            -- a big reply does not fit the transport buffer: the protocol is told to pause writing
+            if c.paused || o == .bigResult then { c' with sendBlocked := true, paused := true }
+            else sendLoop n c'
 
 def runSend (c : Conn) : Conn := sendLoop (c.queue.length + 1) c
 
@@ -289,6 +297,15 @@ def stepFrame (cfg : Cfg) (c : Conn) (f : Frame) : Conn :=
       | .invoke => { c with inflight := c.inflight ++ [call], invoked := c.invoked ++ [(call, name)] }
       | d => complete c call (.rejected d)
 
+/-- The `ConnectionError` subclass the lost transport reports, and where it surfaces. -/
+inductive LossClass where
+  | reset | brokenPipe | aborted      -- `ConnectionResetError`, `BrokenPipeError`, `ConnectionAbortedError`
+  deriving DecidableEq, Repr
+
+inductive LossSite where
+  | write | drain                     -- raised by `writer.write` or by `await writer.drain()`
+  deriving DecidableEq, Repr
+
 inductive Ev where
   | bytes (b : Bytes)
   | frame (f : Frame)                 -- a whole message at once (what `bytes` expands to)
@@ -296,7 +313,8 @@ inductive Ev where
   | eof                               -- EOF or a reset on the reading side
   | stop                              -- `RPCServerConnection.stop()`
   | complete (k : Nat) (o : Outcome)   -- the handler of the `k`-th invoked call ends
-  | pause | resume | lose
+  | pause | resume
+  | lose (cls : LossClass) (site : LossSite)
   deriving DecidableEq, Repr
 
 /-- The receive loop, waiting for the next message, notices the stop event. -/
@@ -325,7 +343,8 @@ def stepCore (cfg : Cfg) (c : Conn) : Ev → Conn
       if c.failAfterDrain then failConn c .unpicklable
       else runSend { c with sendBlocked := false }
     else c
-  | .lose =>
+  | .lose _ _ =>
+    -- `_send_loop` and `serve` treat every `ConnectionError` alike, wherever it is raised
     let c := { c with lost := true }
     if c.sendBlocked then
       if c.failAfterDrain then failConn c .unpicklable else endSend c
